@@ -179,6 +179,9 @@ def r06c(chk, repo, g) -> None:
         chk.floor("R06c.hints_compared", 40000)
         chk.floor("R06c.hint_none", 5000)
         chk.floor("R06c.eps_nodes", 100)
+    elif n_dialects == 0 and chk.findings:
+        chk.note("R06c: no dialect of the analysed tree loads (C29 reports that); hint soundness not evaluated.")
+        return
     else:
         chk.floor("R06c.dialects", 1)
     chk.exhaustive = True
@@ -697,17 +700,29 @@ class _PruneModel:
         if self.loop is None:
             raise AnalysisError("R06d: prune_options has no loop that asks each option for its simple() hint (anchor refactored)")
         self.first_call: Optional[ast.Call] = None
+        self._calls: Dict[int, ast.Call] = {}
 
     # -- value components ------------------------------------------------------------------
     def comp(self, e: ast.AST, at) -> Optional[Tuple[int, Optional[int]]]:
         """(id of the producing call, tuple index) of a plain value, None when unknown."""
         idx: Optional[int] = None
-        if isinstance(e, ast.Subscript) and isinstance(e.slice, ast.Constant) and isinstance(e.slice.value, int):
-            idx, e = e.slice.value, e.value
-        ls = expand(e, self.fr, at)
-        if len(ls) != 1 or not isinstance(ls[0].expr, ast.Call):
+        lf = None
+        for _ in range(4):
+            if isinstance(e, ast.Subscript) and isinstance(e.slice, ast.Constant) and isinstance(e.slice.value, int):
+                if idx is not None:
+                    return None
+                idx, e = e.slice.value, e.value
+            ls = expand(e, self.fr, at)
+            if len(ls) != 1:
+                return None
+            lf = ls[0]
+            if isinstance(lf.expr, ast.Subscript) and not lf.path and isinstance(lf.expr.slice, ast.Constant):
+                e, at = lf.expr, lf.at
+                continue
+            break
+        if lf is None or not isinstance(lf.expr, ast.Call):
             return None
-        lf = ls[0]
+        self._calls[id(lf.expr)] = lf.expr
         if lf.path:
             if idx is not None or len(lf.path) != 1 or not isinstance(lf.path[0], int):
                 return None
@@ -732,7 +747,7 @@ class _PruneModel:
                 cl, cr = self.comp(l, at), self.comp(r, at)
                 if cr == (id(self.hint_call), 0) and cl is not None and cl[1] == 0 and cl[0] != id(self.hint_call):
                     if self.first_call is None or id(self.first_call) == cl[0]:
-                        self.first_call = next(x.expr for x in expand(l.value if isinstance(l, ast.Subscript) else l, self.fr, at))
+                        self.first_call = self._calls[cl[0]]
                         return "raw", isinstance(op, ast.In)
             return None
         if self.is_hint(e, at):
@@ -993,7 +1008,6 @@ def r06e(chk, repo) -> None:
                     "several matching matchers wins would differ between runs and from the documented 'first in the iterable' priority", detail="candidates sorted before the matching loop")
     chk.count("R06e.matching_loops", n_loops)
     chk.floor("R06e.matching_loops", 1)
-    chk.floor("R06e.candidate_list_mutations", 1)
 
 
 def _contains(outer: ast.AST, inner: ast.AST) -> bool:
@@ -1356,6 +1370,18 @@ VARIANTS = [
         "        for _matcher_idx in sorted(_matcher_idxs):\n",
         "QUIET", None, "in-place sort replaced by sorted() in the loop header",
     ),
+    Variant(
+        "quiet-sequence-hint-break-instead-of-return", SEQ,
+        "            if not opt.is_optional():\n                # We found our first non-optional element!\n                return frozenset(simple_raws), frozenset(simple_types)\n",
+        "            if not opt.is_optional():\n                break\n",
+        "QUIET", None, "Sequence.simple leaves the loop and uses the common return",
+    ),
+    Variant(
+        "quiet-dialect-wraps-element-in-sequence", ANSI,
+        "            OneOf(Ref(\"NumericLiteralSegment\"), Ref(\"ExpressionSegment\")),\n            delimiter=Ref(\"SliceSegment\"),",
+        "            OneOf(Sequence(Ref(\"NumericLiteralSegment\")), Ref(\"ExpressionSegment\")),\n            delimiter=Ref(\"SliceSegment\"),",
+        "QUIET", None, "a one-element Sequence around an alternative",
+    ),
     # ---- breaking edits ------------------------------------------------------------------------
     Variant(
         "cache-key-drops-length", MALG,
@@ -1436,7 +1462,7 @@ VARIANTS = [
     ),
     Variant(
         "parser-key-from-class-names", PARSERS,
-        "        self._cache_key = uuid4().hex\n", "        self._cache_key = f\"{type(self).__name__}:{raw_class.__name__}\"\n",
+        "        self._cache_key = uuid4().hex\n", "        self._cache_key = f\"{self.__class__.__name__}:{raw_class.__name__}\"\n",
         "R06f", "_cache_key", "StringParser('SELECT') and StringParser('FROM') share cache entries",
     ),
     Variant(
